@@ -68,15 +68,17 @@ PROP = {'gen': ['octree'],
  'props_module': 'Props.C13',
  'corr_check': 'SNT.Corr.C13Corr.c13_check (models Image/KDTree.v, Image/Octree.v, Image/Quantize.v vs '
                'surf_n_term::image::{KDTree, ColorPalette, OcTree} and Image::quantize)',
- 'level_text': 'Coq theorems over executable models of KDTree, OcTree (packed OcTreePath proved equal to its lane-wise form for every '
-               'colour), ColorPalette::from_image and Image::quantize: nearest-colour search returns a minimal-distance entry for every '
-               'palette (any length >= 1, duplicates) and every query; for every non-empty image and every requested size >= 1 (up to '
-               'usize::MAX since the saturating-product fix) palette extraction terminates (explicit fuel bound, stale caches and '
-               'unreachable!() arms as Panic sites included) with 1..max(k,8) colours, every index is valid for any dithering error, '
-               'undithered pixels map to nearest entries, images whose colours fit are reproduced exactly with and without dithering; '
-               'the Floyd-Steinberg slots stay within 255.0 (exactness of the f32 arithmetic); leaf accumulators are checked machine words of '
-               'the regenerated widths, proved not to overflow for images of at most 2^56 pixels (C13_machine_words). Models tied to the code by exact '
-               'differential runs incl. sub-sampled images up to 10k pixels, crops of large parents and the Rnd stream.',
+ 'level_text': 'Coq theorems over executable models of KDTree, OcTree, ColorPalette::from_image and Image::quantize. C13_nearest: for every '
+               'palette (any length >= 1, duplicates) and every query the search returns a minimal-distance entry. The four theorems named '
+               '_upto_2p56px assume an image / colour list of at most 2^56 entries: for every such non-empty input and every requested size '
+               '>= 1 (up to usize::MAX) palette extraction never panics (unreachable!() arms and overflow of the leaf accumulators, modelled '
+               'as checked words of the regenerated widths, are excluded inside these theorems by the ratio/mass invariants), terminates '
+               '(explicit fuel bound, stale caches included) with 1..max(k,8) colours; every index is valid for any dithering error; '
+               'undithered pixels map to nearest entries; images whose colours fit and that are not sub-sampled are reproduced exactly with '
+               'and without dithering. Auxiliary lemmas (not counted): packed OcTreePath = lane-wise path for every colour; the declared '
+               'widths cover 2^56 pixels; one row of the error diffusion keeps every slot within 255.0 (the binary32 exactness itself is an '
+               'argument in design/C13.md). Models tied to the code by exact differential runs incl. sub-sampled images up to 10k pixels, '
+               'crops of large parents, huge requested sizes and the Rnd stream.',
  'level_note': 'Trusted: Coq kernel + vm_compute; hand-written models validated by the correspondence run; '
                'rasterize blend_over enters as an oracle (effective pixels). No axioms.',
  'technique': 'Coq proof (k-d invariant, octree measure/invariants, induction over pixels) + model/implementation correspondence',
